@@ -146,7 +146,7 @@ theorem lbChoices_sub {p : Policy} {e : Env} {cs : List Backend} {b : Backend}
       · simp at h
       · split at h
         · next hb => simp at h; exact h ▸ maglevLookup_mem hb
-        · exact rrPick_mem (mem_toList h)
+        · exact List.mem_of_getElem? (mem_toList h)
 
 theorem pick_mem {l : List Backend} {r : Nat} {b : Backend} (h : pick l r = some b) : b ∈ l :=
   List.mem_of_getElem? h
@@ -394,6 +394,15 @@ theorem maglevLookup_ident (pref built : List Nat) (l1 l2 : List Backend) (h : l
     · simp only [hb]
       exact ih
 
+theorem getElem?_ident (i : Nat) (l1 l2 : List Backend) (h : l1.map ident = l2.map ident) :
+    (l1[i]?).map ident = (l2[i]?).map ident := by
+  have : (l1.map ident)[i]? = (l2.map ident)[i]? := by rw [h]
+  simpa using this
+
+theorem length_of_ident {l1 l2 : List Backend} (h : l1.map ident = l2.map ident) : l1.length = l2.length := by
+  have : (l1.map ident).length = (l2.map ident).length := by rw [h]
+  simpa using this
+
 theorem map_addr_of_ident {l1 l2 : List Backend} (h : l1.map ident = l2.map ident) :
     l1.map (·.addr) = l2.map (·.addr) := by
   have : (l1.map ident).map (fun t => t.2.1) = (l2.map ident).map (fun t => t.2.1) := by rw [h]
@@ -462,15 +471,16 @@ theorem sticky_spec {s : State} {c st : Nat} {e : Env} {b : Backend}
 theorem findSticky_spec {l : BList} {st now : Nat} {b : Backend} (h : findSticky l st now = some b) :
     b ∈ l.backends ∧ b.sticky = some st ∧ canOpen now b = true := by
   unfold findSticky at h
-  split at h
-  · next x hx =>
-    split at h
-    · next hc =>
-      simp at h; subst h
-      have := List.find?_some hx
-      exact ⟨List.mem_of_find?_eq_some hx, by simpa using this, hc⟩
-    · simp at h
-  · simp at h
+  have hp := List.find?_some h
+  simp only [Bool.and_eq_true, beq_iff_eq] at hp
+  exact ⟨List.mem_of_find?_eq_some h, hp.1, hp.2⟩
+
+theorem findSticky_isSome {l : BList} {st now : Nat} {b : Backend} (hb : b ∈ l.backends)
+    (hs : b.sticky = some st) (hc : canOpen now b = true) : ∃ b', findSticky l st now = some b' := by
+  unfold findSticky
+  cases h : l.backends.find? (fun b => b.sticky == some st && canOpen now b) with
+  | some x => exact ⟨x, rfl⟩
+  | none => have := List.find?_eq_none.mp h b hb; simp [hs, hc] at this
 
 /-! ### removal: an address stays absent until it is added again -/
 
